@@ -29,7 +29,7 @@ CONTRACTS = {
 }
 
 
-class Any:
+class Any(pg.Any):
     def __init__(self, *propositions, default=None, variable=None):
         self.default = [puan.variable(x) if type(x) == str else x for x in (default if default is not None else [])]
         if len(self.default) > 0 and self.default is not None and len(propositions) > 1:
@@ -68,7 +68,7 @@ class Any:
             return pg.Any.from_json(data, class_map)
 
 
-class Xor:
+class Xor(pg.Xor):
     def __init__(self, *propositions, default=None, variable=None):
         pg.Xor.__init__(self, *propositions, variable=variable)
         self.default = [puan.variable(x) if type(x) == str else x for x in (default if default is not None else [])]
@@ -96,7 +96,7 @@ class Xor:
                    variable=data.get("id", None))
 
 
-class StingyConfigurator:
+class StingyConfigurator(pg.All):
     def __init__(self, *propositions, id=None):
         pg.All.__init__(self, *propositions, variable=id)
 
